@@ -17,8 +17,15 @@ import (
 
 // Agent-level dry run: `blackdagger dry` = agent.Run with Options{Dry: true}.
 // Nothing may be executed (steps AND handlers), nothing may be recorded.
-func checkDry(t rep.Fataler, c sim.Case) {
-	rep.Begin(ID, "dry", c)
+// DryCase: a generated DAG plus its own (DAG-level) preconditions: 0 none, 1 met, 2 unmet.
+type DryCase struct {
+	Dag    sim.Case `json:"dag"`
+	DagPre int      `json:"dagPre"`
+}
+
+func checkDry(t rep.Fataler, dc DryCase) {
+	c := dc.Dag
+	rep.Begin(ID, "dry", dc)
 	snap := agentkit.EnvSnapshot()
 	defer agentkit.RestoreEnv(snap)
 	h, err := agentkit.NewHome("/bin/false")
@@ -26,10 +33,17 @@ func checkDry(t rep.Fataler, c sim.Case) {
 		t.Fatalf("home: %v", err)
 	}
 	defer h.Cleanup()
-	file, _ := h.WriteDAG("dry", sim.YAML(&c, 0, "p1 X=2"))
+	pre := ""
+	switch dc.DagPre {
+	case 1:
+		pre = "preconditions:\n  - condition: \"1\"\n    expected: \"1\"\n"
+	case 2:
+		pre = "preconditions:\n  - condition: \"1\"\n    expected: \"1\"\n  - condition: \"0\"\n    expected: \"1\"\n"
+	}
+	file, _ := h.WriteDAG("dry", pre+sim.YAML(&c, 0, "p1 X=2"))
 	d, err := dag.Load("", file, "")
 	if err != nil {
-		rep.Fail(t, ID, "dry", c, nil, "generated definition rejected: %v", err)
+		rep.Fail(t, ID, "dry", dc, nil, "generated definition rejected: %v", err)
 	}
 	_, scripts := sim.BuildSteps(&c)
 	w := sim.NewWorld(scripts)
@@ -40,13 +54,13 @@ func checkDry(t rep.Fataler, c sim.Case) {
 	case runErr = <-done:
 	case <-time.After(30 * time.Second * time.Duration(sim.LoadFactor())):
 		w.ReleaseAll()
-		rep.Fail(t, ID, "dry", c, map[string]any{"trace": w.Trace()}, "dry run did not end within 30 s")
+		rep.Fail(t, ID, "dry", dc, map[string]any{"trace": w.Trace()}, "dry run did not end within 30 s")
 	}
 	if tr := w.Trace(); len(tr) > 0 {
-		rep.Fail(t, ID, "dry", c, map[string]any{"trace": tr}, "dry run created / executed %d executor event(s), first: %s of %q", len(tr), tr[0].Kind, tr[0].Step)
+		rep.Fail(t, ID, "dry", dc, map[string]any{"trace": tr}, "dry run created / executed %d executor event(s), first: %s of %q", len(tr), tr[0].Kind, tr[0].Step)
 	}
 	if runs := h.NewDataStores().HistoryStore().ReadStatusRecent(file, 5); len(runs) > 0 {
-		rep.Fail(t, ID, "dry", c, nil, "dry run recorded %d run(s) in the history", len(runs))
+		rep.Fail(t, ID, "dry", dc, nil, "dry run recorded %d run(s) in the history", len(runs))
 	}
 	n := 0
 	filepath.Walk(h.Data, func(p string, info os.FileInfo, err error) error {
@@ -56,16 +70,16 @@ func checkDry(t rep.Fataler, c sim.Case) {
 		return nil
 	})
 	if n > 0 {
-		rep.Fail(t, ID, "dry", c, nil, "dry run left %d file(s) in the data directory", n)
+		rep.Fail(t, ID, "dry", dc, nil, "dry run left %d file(s) in the data directory", n)
 	}
-	if runErr != nil {
-		rep.Fail(t, ID, "dry", c, nil, "dry run of a valid DAG returned an error: %v", runErr)
+	if runErr != nil && dc.DagPre != 2 {
+		rep.Fail(t, ID, "dry", dc, nil, "dry run of a valid DAG returned an error: %v", runErr)
 	}
 	key := ""
 	if len(c.Handlers) > 0 && c.Depth() >= 2 {
 		key = rep.Hash("agent-dry|" + c.Key())
 	}
-	rep.Eval(key, "agent-dry")
+	rep.Eval(key, "agent-dry", []string{"dry:no-dag-preconditions", "dry:dag-preconditions-met", "dry:dag-preconditions-unmet"}[dc.DagPre%3])
 	if key != "" && rep.WantSample() {
 		rep.Sample(map[string]any{"stage": "dry", "steps": c.Steps, "handlers": c.Handlers})
 	}
@@ -78,6 +92,6 @@ func TestDry(t *testing.T) {
 		for i := range c.Steps {
 			c.Steps[i].SetupFail = false
 		}
-		checkDry(t, c)
+		checkDry(t, DryCase{Dag: c, DagPre: rapid.IntRange(0, 2).Draw(t, "dagPre")})
 	})
 }
